@@ -284,6 +284,12 @@ def run(prop, tier, extra=None):
         tpl = cd.TEMPLATES + ['T6', 'T6'] if prop == 'C06' else None
         progs.append(cd.gen_program(rnd, rnd.choice(c['depths']), focus=focus,
                                     templates=tpl))
+    if prop == 'C01':
+        # disk-backed receivers ("a file obtained from ... a reader")
+        for i in range(120 if tier == 'quick' else 1500):
+            progs.append(cd.gen_program(
+                rnd, rnd.choice([2, 3]), templates=['T1', 'T2', 'T3', 'T4',
+                                                    'T5', 'T7'], disk=True))
     if prop == 'C04':
         progs += hetero_stacks(rnd, tier)
         progs += mfopen_stacks(rnd, tier)
